@@ -298,7 +298,8 @@ PROPS = {
         rule='generated directory trees in a scratch directory (removed afterwards): up to 7 directories nested up to 4 deep, up to 8 '
              'files, names with spaces / newlines / non-ASCII, hidden files and directories, .git / node_modules, symlinks to a '
              'directory and to a file; all combinations of file / dir / hidden / follow, skip lists by base name, by path, by path '
-             'suffix and with a leading separator; roots "." and a sub-directory; outputs compared as sorted multisets; '
+             'suffix and with a leading separator, incl. a path skip next to a directory whose name only ends with its first '
+             'component; roots ".", a sub-directory, and "." / ".." from a working directory inside the tree; outputs compared as sorted multisets; '
              'non-trivial = at least two paths listed and at least one entry not listed; distinct = distinct case lines',
         trusted=['fastwalk visits every entry below a root once, parents first, and honours SkipDir (its parallel order is not modelled: '
                  'outputs are compared sorted)', 'the file system of the sandbox'],
@@ -318,7 +319,12 @@ PROPS = {
              'brackets, braces, angle brackets, 12 matching punctuation pairs, trailing colon), arguments containing + , : and the '
              'delimiter characters of other forms, mixed-case action names; raw strings of bind syntax fragments; option vectors over '
              'a vocabulary of 45 option spellings (flags, --opt=value, --opt value, integers incl. invalid ones) with and without '
-             '$FZF_DEFAULT_OPTS; argv order / override noise in the filter area; non-trivial = a structured bind string, or an '
+             '$FZF_DEFAULT_OPTS; append forms (key:+actions) onto keys bound by earlier groups; bare put on printable and '
+             'non-printable keys; override pairs over EVERY option of the option loop (names and the Options fields each block '
+             'assigns are read off /repo/src/options.go on every run; accepted forms are found by asking the parser): the same '
+             'option twice, an option and its --no- twin, two options writing the same fields, in one vector or environment '
+             'then command line, compared on a structural dump of all fields of Options; arbitrary words (empty, NUL-free '
+             'junk, huge numbers) where a value may be expected; argv order / override noise in the filter area; non-trivial = a structured bind string, or an '
              'accepted option vector of >= 2 arguments; distinct = distinct case lines',
         trusted=['the key-name table (parseKeyChords is used to resolve the key names of the intended structure)',
                  'go-shellwords for splitting $FZF_DEFAULT_OPTS', 'the ~150 option value parsers outside the modelled vocabulary '
